@@ -16,7 +16,7 @@ enum { OP_FRAME = 3, OP_FRAMEDEC = 4, OP_GENFUNC = 5 };
 enum { K_STREAM = 0, K_COMPRESSFRAME = 1, K_COMPRESSFRAME_CDICT = 2 };
 enum { DK_NONE = 0, DK_DICT = 1, DK_CDICT = 2 };
 
-static u64 n_calls, n_frames, n_decodes, n_switch, n_flush, n_uncomp, n_volatile, n_dec_ok, n_dec_err, n_dec_incomplete;
+static u64 n_reused_differs, n_dict_derived, n_forged_size; static u64 n_calls, n_frames, n_decodes, n_switch, n_flush, n_uncomp, n_volatile, n_dec_ok, n_dec_err, n_dec_incomplete;
 static u8* g_dictbuf;   /* 70000 bytes, blob 1 */
 static u8 g_ops[1 << 16]; static size_t g_nops;   /* call history of the current streaming session: 'U'/'u' + u32 size, 'F' */
 static void op_rec(int code, size_t n) { if (g_nops + 5 <= sizeof g_ops) { g_ops[g_nops++] = (u8)code; if (code != 'F') { u32 v = (u32)n; memcpy(g_ops + g_nops, &v, 4); g_nops += 4; } } else g_nops = sizeof g_ops + 1; }
@@ -143,12 +143,24 @@ static void rec_prefs(rec_t* r, const LZ4F_preferences_t* p)
 /* produce one frame, check it with the real decoder under several chunkings, write the record */
 static void frame_case(LZ4F_cctx* cctx, LZ4F_dctx* dctx, const u8* in, size_t n, int kind, int thorough)
 {
-    LZ4F_preferences_t prefs = rand_prefs(n); vec_t out; rec_t r; int rc = 0; int useNull = 0; int dictKind = rndp(25) ? (rndp(50) ? DK_DICT : DK_CDICT) : DK_NONE;
+    u8* din = NULL; LZ4F_preferences_t prefs = rand_prefs(n); vec_t out; rec_t r; int rc = 0; int useNull = 0; int dictKind = rndp(25) ? (rndp(50) ? DK_DICT : DK_CDICT) : DK_NONE;
     static const size_t dsz[] = {1, 7, 300, 4000, 65535, 65536, 70000}; size_t dictSize = dictKind ? dsz[rndn(7)] : 0; LZ4F_CDict* cdict = NULL; int p;
     memset(&out, 0, sizeof out);
     if (kind == K_COMPRESSFRAME && dictKind) dictKind = DK_NONE, dictSize = 0;
     if (kind == K_COMPRESSFRAME_CDICT) { dictKind = rndp(70) ? DK_CDICT : DK_NONE; if (dictKind && !dictSize) dictSize = dsz[rndn(7)]; if (!dictKind) dictSize = 0; }
     if (dictKind == DK_CDICT) cdict = LZ4F_createCDict(g_dictbuf + (70000 - dictSize), dictSize);
+    if (dictKind != DK_NONE && dictSize >= 300 && n >= 16 && rndp(70)) {
+        /* content made of pieces of the dictionary (any place of it, head and tail alike), so that blocks really reference it */
+        size_t pos = 0; const u8* dict = g_dictbuf + (70000 - dictSize);
+        din = xalloc(n);
+        while (pos < n) {
+            size_t len = 4 + rndn(rndp(30) ? 2000 : 60), from = rndp(30) ? rndn(300) : rndp(40) ? dictSize - 1 - rndn(300) : rndn((u32)dictSize);
+            if (len > n - pos) len = n - pos; if (from + len > dictSize) from = dictSize - len < dictSize ? dictSize - len : 0;
+            if (rndp(15)) { size_t k; for (k = 0; k < len; k++) din[pos + k] = (u8)rnd(); } else memcpy(din + pos, dict + from, len <= dictSize ? len : dictSize), (len > dictSize ? memset(din + pos + dictSize, 7, len - dictSize) : (void*)0);
+            pos += len;
+        }
+        in = din; n_dict_derived++;
+    }
     if (kind == K_COMPRESSFRAME && rndp(10)) { useNull = 1; memset(&prefs, 0, sizeof prefs); }
     rec_begin(&r, OP_FRAME); rec_int(&r, kind); rec_prefs(&r, &prefs); rec_int(&r, (long long)dictSize); rec_int(&r, dictKind); rec_bytes(&r, in, n); rec_bytes(&r, NULL, 0);
     cur_set(&r);
@@ -181,7 +193,7 @@ static void frame_case(LZ4F_cctx* cctx, LZ4F_dctx* dctx, const u8* in, size_t n,
     }
     if (kind != K_STREAM && prefs.frameInfo.blockSizeID == 0 && 0) {}
     cur_clear(); rec_write(&r);
-    free(out.p); if (cdict) LZ4F_freeCDict(cdict);
+    free(out.p); free(din); if (cdict) LZ4F_freeCDict(cdict);
 }
 
 /* decode arbitrary bytes under all chunking policies: same verdict, same output; record for the judge */
@@ -287,6 +299,41 @@ int main(int argc, char** argv)
                 c = XXH32(fr + bl, p - bl, 0); memcpy(fr + p, &c, 4); p += 4;
                 memset(fr + p, 0, 4); p += 4;
                 { LZ4F_dctx* fresh; LZ4F_createDecompressionContext(&fresh, LZ4F_VERSION); decode_case(fresh, fr, p, 0, 0, 1); LZ4F_freeDecompressionContext(fresh); }   /* a fresh context sizes its buffers for THIS frame */
+                free(fr);
+            }
+        }
+        {   /* frames whose DECLARED content size is wrong: a valid multi-block frame (one block per flushed chunk, compressible data so the blocks are
+             * compressed) whose content-size field is rewritten to the decoded size at every block boundary, +-1, and beyond the real size; header
+             * checksum recomputed, so the size check at the end mark is the only thing that can (and must) reject it */
+            int rep, nrep = thorough ? 12 : 3;
+            for (rep = 0; rep < nrep; rep++) {
+                LZ4F_preferences_t prefs; size_t nch = 2 + rndn(5), c, total = 0, sums[8], cap, pos = 0, res; u8* fr; size_t chunk[8];
+                memset(&prefs, 0, sizeof prefs); prefs.frameInfo.blockMode = (LZ4F_blockMode_t)rndn(2); prefs.frameInfo.contentChecksumFlag = (LZ4F_contentChecksum_t)rndn(2);
+                prefs.frameInfo.blockChecksumFlag = (LZ4F_blockChecksum_t)rndn(2); prefs.compressionLevel = rndp(30) ? 9 : 0;
+                for (c = 0; c < nch; c++) { chunk[c] = rndp(30) ? 65536 : 200 + rndn(30000); total += chunk[c]; sums[c] = total; }
+                gen_data(data, total, D_LZLIKE); prefs.frameInfo.contentSize = total;
+                cap = LZ4F_compressBound(total, &prefs) + nch * 16 + 64; fr = xalloc(cap);
+                res = LZ4F_compressBegin(cctx, fr, cap, &prefs); if (LZ4F_isError(res)) { free(fr); continue; } pos = res;
+                {   size_t off = 0; int bad = 0;
+                    for (c = 0; c < nch && !bad; c++) {
+                        res = LZ4F_compressUpdate(cctx, fr + pos, cap - pos, data + off, chunk[c], NULL); if (LZ4F_isError(res)) { bad = 1; break; } pos += res;
+                        res = LZ4F_flush(cctx, fr + pos, cap - pos, NULL); if (LZ4F_isError(res)) { bad = 1; break; } pos += res; off += chunk[c];
+                    }
+                    if (!bad) { res = LZ4F_compressEnd(cctx, fr + pos, cap - pos, NULL); if (LZ4F_isError(res)) bad = 1; else pos += res; }
+                    n_calls += 2 * nch + 2;
+                    if (bad) { free(fr); continue; }
+                }
+                decode_case(dctx, fr, pos, 0, 0, thorough);                      /* the honest frame */
+                for (c = 0; c < nch + 2; c++) {
+                    static const long long deltas[] = {0, -1, 1}; int di;
+                    for (di = 0; di < 3; di++) {
+                        unsigned long long declared = (c < nch ? sums[c] : c == nch ? total + 65536 : 1) + (unsigned long long)deltas[di]; int k2;
+                        if (declared == total || declared == 0) continue;
+                        for (k2 = 0; k2 < 8; k2++) fr[6 + k2] = (u8)(declared >> (8 * k2));
+                        fr[14] = (u8)(XXH32(fr + 4, 10, 0) >> 8);
+                        decode_case(dctx, fr, pos, 0, (int)rndn(2), thorough); n_forged_size++;
+                    }
+                }
                 free(fr);
             }
         }
@@ -396,7 +443,9 @@ int main(int argc, char** argv)
                 LZ4F_freeCompressionContext(fresh);
                 r.n -= 1; rec_bytes(&r, a.p, a.n);
                 if (rc1 || rc2) c_fail(&r, rc1 ? "begin_after_history_failed" : "fresh_context_failed");
-                else if (a.n != b.n || (a.n && memcmp(a.p, b.p, a.n) != 0)) c_fail(&r, "reused_cctx_differs_from_fresh");
+                /* NOT a failure: the property asks for a VALID frame (judged from the record by the specification parser), not for the bytes of a fresh
+                 * context; they legitimately differ (a fresh hash table's zero entries are candidates "position 0", a fast-reset table's stale entries are not) */
+                else if (a.n != b.n || (a.n && memcmp(a.p, b.p, a.n) != 0)) n_reused_differs++;
             }
             n_frames++;
             /* decoder side: history on the shared dctx, then this frame must decode as on a fresh context, one frame per completion */
@@ -446,7 +495,7 @@ int main(int argc, char** argv)
 
     LZ4F_freeCompressionContext(cctx); LZ4F_freeDecompressionContext(dctx);
     harness_done();
-    stat_u("calls", n_calls); stat_u("frames", n_frames); stat_u("decodes", n_decodes); stat_u("flushes", n_flush); stat_u("uncompressed_updates", n_uncomp); stat_u("volatile_sources", n_volatile);
+    stat_u("calls", n_calls); stat_u("reused_cctx_bytes_differ_from_fresh", n_reused_differs); stat_u("dictionary_derived_contents", n_dict_derived); stat_u("forged_content_sizes", n_forged_size); stat_u("frames", n_frames); stat_u("decodes", n_decodes); stat_u("flushes", n_flush); stat_u("uncompressed_updates", n_uncomp); stat_u("volatile_sources", n_volatile);
     stat_u("mode_switches_with_buffered_data", n_switch); stat_u("dec_complete", n_dec_ok); stat_u("dec_error", n_dec_err); stat_u("dec_incomplete", n_dec_incomplete); stat_u("records", g_nrecords);
     stat_u("cfails", (u64)g_cfails);
     free(data); free(g_dictbuf);
